@@ -131,6 +131,7 @@ def corruptions(ev):
     add('species-level initial-state value (surf.inp)', 'Num_Ea_Species', lambda t: wit_ts(t, s, 1))
     add('species-level initial-state value (EAs.inp)', 'Num_EA_Species', lambda t: wit_ts(t, eas, 1))
     add('printed Ea of gas reaction vs species', 'Num_Ea_Species', lambda t: tok_num(t[g]['lines'][line_with(g, 'A2=2B')][3], t[g]['lines'][line_with(g, 'A2=2B')][3]['v'][0] + 2))
+    add('printed A of a surface reaction (x10)', 'Num_A_Species', lambda t: t[s]['lines'][line_with(s, '2A(S)+2PT(B)=A2+2PT(S)')][1]['v'].__setitem__(1, t[s]['lines'][line_with(s, '2A(S)+2PT(B)=A2+2PT(S)')][1]['v'][1] + 1))
     add('expected partition of the TLC case', 'ReplayDoc', lambda t: t[0]['exp'].update({'gasrx': [0, 1, 1]}))
     add('expected EA count of the TLC case', 'ReplayDoc', lambda t: t[0]['exp'].update({'neas': 3}))
     return C
